@@ -914,6 +914,57 @@ contract(
     **_GMCD_KW,
 )
 
+# `#rec.on-stack`: ONE activation on an ARBITRARY glyph set (no rank function: cycles allowed) in which no recursive activation is started
+# (every base that is present is memoised, on the recursion stack, or the glyph itself): InvalidFontData IFF a present base is on the
+# recursion stack (incl. the glyph's own name, which the activation pushed) — the one-level half of "a reachable cycle raises"; the
+# reachability induction itself stays bounded (exhaustive scope in the hook).
+_ON_STACK = f"(c.baseGlyph in {_GS} and (c.baseGlyph in rec_stack or c.baseGlyph == glyph.name))"
+contract(
+    "ufo2ft.util:getMaxComponentDepth",
+    name="rec.on-stack",
+    props=["C02"],
+    params={"glyph": Ref("C02_FGlyph"), "glyphSet": Ref("C02_FGlyphSet"), "maxComponentDepth": INT, "visited": _MEMO_T, "rec_stack": List(STR)},
+    returns=INT,
+    modifies=["rec_stack"],
+    alias_ok=("visited", "V0", "rec_stack", "RS1", "RS0"),
+    requires=[
+        f"all(implies(c.baseGlyph in {_GS}, c.baseGlyph in visited or c.baseGlyph in rec_stack or c.baseGlyph == glyph.name) for c in glyph.components)",
+    ],
+    raises={"InvalidFontData": f"any({_ON_STACK} for c in glyph.components)"},
+    ensures={
+        "stack-restored": "rec_stack == old(rec_stack)",
+        "leaf": f"implies(not {_HASC}, result == maxComponentDepth)",
+        "composite-at-least-one": f"implies({_HASC}, result >= maxComponentDepth + 1)",
+    },
+    canaries={"never-returns": "False"},
+    calls={"ufo2ft.util:getMaxComponentDepth": "ufo2ft.util:getMaxComponentDepth#rec"},
+    ghost_vars={"RS1": (List(STR), "[]"), "RS0": (List(STR), "rec_stack"), "V0": (_MEMO_T, "visited")},
+    ghost={"rec_stack.append(glyph.name)": ["RS1 = rec_stack"]},
+    hints={"rec_stack.append(glyph.name)": [
+        "len(rec_stack) == len(RS0) + 1 and rec_stack[len(RS0)] == glyph.name",
+        "all(rec_stack[k] == RS0[k] for k in range(len(RS0)))",
+    ], "if component.baseGlyph in rec_stack:": [
+        # not on the stack (the test just passed), so by the precondition it is memoised: no activation is started
+        "component == glyph.components[i]",
+        "component.baseGlyph in visited",
+    ]},
+    locals={"baseGlyph": Ref("C02_FGlyph")},
+    merge_branches=False,
+    seq_positions=True,
+    dict_key_positions=False,
+    loops={"for component in glyph.components": Loop(
+        index="i",
+        invariants={
+            "none-on-stack-so-far": f"not any((glyph.components[k].baseGlyph in {_GS} and (glyph.components[k].baseGlyph in RS0 or glyph.components[k].baseGlyph == glyph.name)) for k in range(i))",
+            "height-at-least-one": "height >= 1",
+            "stack": "rec_stack == RS1",
+            "stack-positions": "len(rec_stack) == len(RS0) + 1 and rec_stack[len(RS0)] == glyph.name",
+            "stack-prefix": "all(rec_stack[k] == RS0[k] for k in range(len(RS0)))",
+            "memo-untouched": "visited == V0",
+        },
+    )},
+)
+
 
 def _gmcd_cases(rng, n):
     from vcheck.hooks import c15_render as R
@@ -949,6 +1000,30 @@ def _gmcd_build(d):
 
 
 CONTRACTS["ufo2ft.util:getMaxComponentDepth#rec"].runtime = Runtime(_gmcd_cases, _gmcd_build)
+
+
+def _gmcd_onstack_cases(rng, n):
+    out = []
+    for d in _gmcd_cases(rng, n):
+        names = sorted(d["glyphs"])
+        others = [x for x in names if x != d["glyph"]]
+        d = dict(d, stack=rng.sample(others, rng.randint(0, len(others))), selfref=rng.random() < 0.2 and d["ufolib"] == "ufoLib2")  # defcon's notifications recurse on a self-reference
+        out.append(d)
+    return out
+
+
+def _gmcd_onstack_build(d):
+    desc = {k: dict(v, components=list(v["components"])) for k, v in d["glyphs"].items()}
+    if d["selfref"] and desc[d["glyph"]]["components"]:
+        desc[d["glyph"]]["components"].append([d["glyph"], [1, 0, 0, 1, 0, 0]])  # the glyph as its own component
+    f = rtlib.build_ufo({"glyphs": desc}, d["ufolib"])
+    gs = {g.name: g for g in f}
+    # everything that is neither on the stack nor the glyph itself is memoised (any value: this variant says nothing about the number)
+    memo = {n: 1 + len(n) % 3 for n in gs if n not in d["stack"] and n != d["glyph"]}
+    return {"glyph": gs[d["glyph"]], "glyphSet": gs, "maxComponentDepth": d["depth"], "visited": memo, "rec_stack": list(d["stack"])}
+
+
+CONTRACTS["ufo2ft.util:getMaxComponentDepth#rec.on-stack"].runtime = Runtime(_gmcd_onstack_cases, _gmcd_onstack_build)
 CONTRACTS["ufo2ft.util:getMaxComponentDepth#top"].runtime = Runtime(_gmcd_cases, lambda d: {k: v for k, v in _gmcd_build(d).items() if k in ("glyph", "glyphSet")})
 
 # =====================================================================================================
@@ -1738,4 +1813,17 @@ contract(
         "other-glyphs-untouched": _OTHERS_KEPT.replace("glyphSet", _FS),
     },
     canaries={"always-flattens": "result"},
+)
+
+# flattenComponents._haveNestedComponents (the interpolatable filter's test): a pure-composite glyph some component of which points at a
+# glyph of the glyph set that itself has components
+contract(
+    "ufo2ft.filters.flattenComponents:_haveNestedComponents",
+    props=["C02", "C15"],
+    params={"glyph": Ref("C02_FGlyph"), "glyphSet": Ref("C02_FGlyphSet")},
+    returns=BOOL,
+    requires=["glyph.ncontours >= 0"],
+    ensures={"def": "result == (len(glyph.components) > 0 and glyph.ncontours == 0 and "
+                    "any(c.baseGlyph in glyphSet.glyphs and len(glyphSet.glyphs[c.baseGlyph].components) > 0 for c in glyph.components))"},
+    canaries={"never": "not result"},
 )
